@@ -147,6 +147,86 @@ let show_approx b = function
   | AExact (s, e) -> let (s, e) = normalize b s e in hx s ^ " " ^ hx e ^ " Exact"
   | AInexact (s, e, r) -> let (s, e) = normalize b s e in hx s ^ " " ^ hx e ^ " " ^ flag_name r
 
+(* ---------------------------------------------------------------------------------------------
+   As-is models of the series / powering code (Float/ElemAsis.v), evaluated on every case and
+   compared with the implementation's answer bit for bit (asis=same|diff).  The f32 estimate layer
+   (Float/ElemF32.v, abstract in Coq) is instantiated here with IEEE single arithmetic: an f32 is an
+   OCaml float holding a single-precision value, +,-,*,/ are computed in double and rounded to
+   single (exact double rounding for these operations), log2 is the double log2 rounded to single
+   (libm's log2f differs from it on ~1300 of the 2^24 integer arguments, and only by one ulp, which
+   matters only next to an integer value: a mismatch shows as asis=diff, never as a verdict). *)
+let r32 x = Int32.float_of_bits (Int32.bits_of_float x)
+let f_of_z (v : Zar.t) : Stdlib.Float.t =
+  if Zar.numbits v <= 53 then r32 (Zar.to_float v)
+  else begin
+    let av = Zar.abs v in
+    let sh = Zar.numbits av - 30 in
+    let top = Zar.shift_right av sh in
+    let top = if Zar.equal (Zar.shift_left top sh) av then top else Zar.logor top Zar.one in
+    let r = r32 (ldexp (Zar.to_float top) sh) in
+    if Zar.sign v < 0 then -. r else r
+  end
+let two64 = Zar.shift_left Zar.one 64
+let two63 = Zar.shift_left Zar.one 63
+let f_to_usize x =
+  if Stdlib.Float.is_nan x || x <= 0.0 then Zar.zero
+  else if x >= 18446744073709551616.0 then Zar.pred two64 else Zar.of_float (Stdlib.Float.trunc x)
+let f_to_isize x =
+  if Stdlib.Float.is_nan x then Zar.zero
+  else if x >= 9223372036854775808.0 then Zar.pred two63
+  else if x <= -9223372036854775808.0 then Zar.neg two63 else Zar.of_float (Stdlib.Float.trunc x)
+let next_up f =
+  let bits = Int32.bits_of_float f in
+  let abs = Int32.logand bits 0x7fff_ffffl in
+  Int32.float_of_bits (if abs = 0l then 1l else if bits = abs then Int32.add bits 1l else Int32.sub bits 1l)
+let next_down f =
+  let bits = Int32.bits_of_float f in
+  let abs = Int32.logand bits 0x7fff_ffffl in
+  Int32.float_of_bits (if abs = 0l then 0x8000_0001l else if bits = abs then Int32.sub bits 1l else Int32.add bits 1l)
+let f32 : Stdlib.Float.t f32ops =
+  { f_of_Z = f_of_z; f_log2 = (fun x -> r32 (Stdlib.Float.log2 x));
+    f_add = (fun a b -> r32 (a +. b)); f_sub = (fun a b -> r32 (a -. b));
+    f_mul = (fun a b -> r32 (a *. b)); f_div = (fun a b -> r32 (a /. b));
+    f_neg = (fun a -> -. a); f_ltb = (fun a b -> a < b);
+    f_to_usize = f_to_usize; f_to_isize = f_to_isize; f_next_up = next_up; f_next_down = next_down;
+    f_log10_2 = r32 0.301029995663981195213738894724493027; f_epsilon = ldexp 1.0 (-23); f_neg_inf = neg_infinity }
+
+let rec nat_of_int n acc = if n <= 0 then acc else nat_of_int (n - 1) (S acc)
+let fuel = nat_of_int 200000 O
+let word_bits = zi 64
+
+let show_result b = function
+  | Ok a -> show_approx b a
+  | Panic _ -> "panic"
+  | Err _ -> "err"
+  | OutOfFuel -> "out-of-fuel"
+
+(* evaluation of the model under a wall-clock budget (the extracted digit count is quadratic: huge
+   operands are affordable for the implementation but not here); None = not evaluated *)
+exception Budget
+let with_budget secs (f : unit -> 'a) : 'a option =
+  let old = Sys.signal Sys.sigalrm (Sys.Signal_handle (fun _ -> raise Budget)) in
+  let stop () =
+    ignore (Unix.setitimer Unix.ITIMER_REAL { Unix.it_interval = 0.0; it_value = 0.0 });
+    Sys.set_signal Sys.sigalrm old in
+  ignore (Unix.setitimer Unix.ITIMER_REAL { Unix.it_interval = 0.0; it_value = secs });
+  match f () with
+  | v -> stop (); Some v
+  | exception Budget -> stop (); None
+  | exception Stack_overflow -> stop (); None
+  | exception e -> stop (); raise e
+
+(* the answer the as-is model predicts: "sig exp Flag" *)
+let asis_answer op b m p s e a2 a3 : string =
+  match op with
+  | "powi" -> show_result b (powi_asis b p m s e a2)
+  | "exp" -> show_result b (exp_internal b f32 word_bits fuel p m s e false)
+  | "exp_m1" -> show_result b (exp_internal b f32 word_bits fuel p m s e true)
+  | "ln" -> show_result b (ln_internal b f32 word_bits fuel p m s e false)
+  | "ln_1p" -> show_result b (ln_internal b f32 word_bits fuel p m s e true)
+  | "powf" -> show_result b (powf_asis b f32 word_bits fuel p m s e a2 a3)
+  | _ -> failwith ("op " ^ op)
+
 let panic_name = function EPUnlimited -> "UnlimitedPrecision" | EPNegBase -> "PowerNegativeBase" | EPLogDomain -> "LogNonPositive"
 
 let judge op0 args got =
@@ -195,6 +275,15 @@ let judge op0 args got =
                 let t = show_approx b a in
                 Some (if fbig then (match split_ws t with [ x; y; _ ] -> x ^ " " ^ y ^ " NoFlag" | _ -> t) else t)
             | _ -> None in
+          let predicted = match predicted with
+            | Some w -> Some w
+            | None ->
+                (* the series / powering code ran: the value-level as-is model *)
+                if Zar.sign p > 0 && Zar.lt p (zi 1500) then
+                  (match with_budget 2.0 (fun () -> asis_answer op b m p s e a2 a3) with
+                   | Some t -> Some (if fbig then (match split_ws t with [ x; y; _ ] -> x ^ " " ^ y ^ " NoFlag" | _ -> t) else t)
+                   | None -> None)
+                else None in
           let fid = match predicted with
             | Some w -> if w = got_txt then " asis=same" else " asis=diff"
             | None -> "" in
